@@ -16,11 +16,13 @@ The recursive traversals of the C++ (`nodesAreMetOnlyOnce_`, `fillSubtreeMetNode
   `mrca_spec`, `path_spec`, `rootAt_spec` (Props/C15Queries, C15RootAt) show the same for the composite queries
   and for `propagateDirection_` / `fillRelationsFrom_` inside `rootAt` (rooted and unrooted trees).
 
-Outside valid rooted trees some traversals of the library genuinely do not return; they are
-recorded (findings/C15.json, C15-nontermination-invalid) with the witnesses below, where the model
-answers `fuel` whatever the amount: `leavesUnder_diverges_witness` (a directed 2-cycle),
-`leavesUnder_unrooted_diverges_witness` (the valid unrooted tree 0-1, 0-2, 1-3), `climb_diverges_witness`
-(the climb of the path / MRCA queries on a father cycle).
+On directed graphs with a cycle — never valid trees — some traversals of the library genuinely do not
+return; they are recorded (findings/C15.json, C15-nontermination-invalid) with the witnesses below,
+where the model answers `fuel` whatever the amount: `leavesUnder_diverges_witness` (a directed 2-cycle),
+`climb_diverges_witness` (the climb of the path / MRCA queries on a father cycle).
+`leavesUnder_unrooted_diverges_witness` (the valid unrooted tree 0-1, 0-2, 1-3) is about the *recursion*
+`fillListOfLeaves_`: since round 3 the query `getLeavesUnderNode` checks `mustBeRooted_()` first and never
+enters it on an unrooted tree (`Props/C15Unrooted.lean`, `leavesUnder_refuses_unrooted`).
 -/
 namespace Bpp.C15
 open Bpp Bpp.Graph
